@@ -377,8 +377,8 @@ Theorem enum_lookup_refuted_F40_sub :
   exists chain s p f, wf s /\ In (p, f) (gaf chain s) /\ known_F40 s = true /\
     lookup_in chain s p = LCreated /\ ref_path f <> p.
 Proof.
-  exists [[]; sa "sub"], (SSchema (sa "deep") [(sa "f", SLeaf KFloat PNone)]), (sa "deep.f"),
-         (mkfld [[]; sa "sub"; sa "deep"] (sa "f") (SLeaf KFloat PNone)).
+  exists [[]; sa "sub"], (SSchema (sa "deep") [(sa "f", SLeaf (KFloat None None) PNone)]), (sa "deep.f"),
+         (mkfld [[]; sa "sub"; sa "deep"] (sa "f") (SLeaf (KFloat None None) PNone)).
   split; [solve_wf|].
   split; [left; reflexivity|]. repeat split; try (vm_compute; reflexivity).
   vm_compute. discriminate.
@@ -419,7 +419,7 @@ Qed.
 (* the hypotheses of enum_lookup_partial are satisfiable (a three-level schema with every node class) *)
 Definition ex_ok : snode :=
   SSchema [] [(sa "a_b", SLeaf (KInt (Some 0%Z) (Some 99%Z)) (PInt 3));
-              (sa "sub", SSchema (sa "sub") [(sa "x", SLeaf KStr PNone);
+              (sa "sub", SSchema (sa "sub") [(sa "x", SLeaf (KStr so_plain) PNone);
                                              (sa "deep", SSchema (sa "deep") [(sa "f", SLeaf KBool (PBool true))])]);
               (sa "ct", SCfgT (SSchema [] [(sa "n", SLeaf (KInt None None) (PInt 1))]))].
 Example ex_ok_wf : wf ex_ok.
@@ -436,7 +436,7 @@ Proof. vm_compute. reflexivity. Qed.
 Inductive optclass := OScalar | OBool | ONone.
 Definition opt_class (n : snode) : optclass :=
   match n with
-  | SLeaf KStr _ | SLeaf (KInt _ _) _ | SLeaf KFloat _ => OScalar
+  | SLeaf (KStr _) _ | SLeaf (KInt _ _) _ | SLeaf (KFloat _ _) _ => OScalar
   | SLeaf KBool _ => OBool
   | _ => ONone
   end.
